@@ -371,18 +371,198 @@ def _(L):
     return adj_loop_inv(L, L.env["v1"].term, L.prefix)
 
 
-@contract("adjmatrix.load_adj_matrix", "matrix:any, vertices:any, linktype:cls<=TwoEndedLink=DirectedEdge", props=("C11",),
-          trusted=True, no_body=True, oracle_op=True)
+class MatEnv(AdjEnv):
+    """spec vocabulary of load_adj_matrix(matrix, vertices): rows RW (row objects; cells(r) their cells), side array VS, n = |RW|.
+         ragged      some row does not have n cells (defined by D1 / D3 below)
+         SRCM(p), DSTM(p)   the truthy cells of the row prefix p in row-major order, as source / target vertices:
+                            cell (i, j) truthy  ->  VS[i] resp. VS[j]"""
+
+    def __init__(self, RW, VS):
+        tag = f"{RW}|{VS}"
+        self.a = RW
+        self.RW, self.VS, self.n = RW, VS, Len(RW)
+        self.gsrc = z3.Function(f"adj_src@{tag}", Ref, Ref)
+        self.gdst = z3.Function(f"adj_dst@{tag}", Ref, Ref)
+        self.MS = z3.Function(f"adj_map_src@{tag}", RSeq, RSeq)
+        self.MD = z3.Function(f"adj_map_dst@{tag}", RSeq, RSeq)
+        self.INC = z3.Function(f"adj_incident@{tag}", RSeq, Ref, RSeq)
+        self.SRCM_ = z3.Function(f"mat_sources@{tag}", RSeq, RSeq)
+        self.DSTM_ = z3.Function(f"mat_targets@{tag}", RSeq, RSeq)
+        self.SRCR_ = z3.Function(f"mat_row_sources@{tag}", Int, RSeq, RSeq)
+        self.DSTR_ = z3.Function(f"mat_row_targets@{tag}", RSeq, RSeq)
+        self.ragged = z3.Function(f"mat_ragged@{tag}", z3.BoolSort())()
+        self.witness = z3.Const(f"mat_ragged_row@{tag}", Ref)
+
+    def cells(self, r):
+        return T.row_cells(r)
+
+    def ragged_defs(self):
+        """ragged  <=>  some row of RW has a length other than n  (a definition: D1 per row, D3 with a witness)"""
+        d1 = Schema("ragged-def", (Ref,), lambda r: Implies(And(Mem(self.RW, r), Len(self.cells(r)) != self.n), self.ragged))
+        d3 = Implies(self.ragged, And(Mem(self.RW, self.witness), Len(self.cells(self.witness)) != self.n))
+        return d1, d3
+
+    def sources(self, p, i=None, q=None):
+        return self.SRCM_(p) if q is None else cat(self.SRCM_(p), self.SRCR_(i, q))
+
+    def targets(self, p, i=None, q=None):
+        return self.DSTM_(p) if q is None else cat(self.DSTM_(p), self.DSTR_(q))
+
+    def defs_input(self, p, i=None, q=None):
+        out = [self.SRCM_(EMPTY()) == EMPTY(), self.DSTM_(EMPTY()) == EMPTY()]
+        sp = self._snoc(p)
+        if sp:
+            head, r = sp
+            out += [self.SRCM_(p) == cat(self.SRCM_(head), self.SRCR_(Len(head), self.cells(r))),
+                    self.DSTM_(p) == cat(self.DSTM_(head), self.DSTR_(self.cells(r)))]
+        if q is not None:
+            out += [self.SRCR_(i, EMPTY()) == EMPTY(), self.DSTR_(EMPTY()) == EMPTY()]
+            sq = self._snoc(q)
+            if sq:
+                head, c = sq
+                t = And(c != NONE, T.truthy(c))
+                out += [self.SRCR_(i, q) == ite(t, snoc(self.SRCR_(i, head), Nth(self.VS, i)), self.SRCR_(i, head)),
+                        self.DSTR_(q) == ite(t, snoc(self.DSTR_(head), Nth(self.VS, Len(head))), self.DSTR_(head))]
+        return out
+
+
+def _mat_env(c_or_L, args):
+    return MatEnv(args["matrix"].term, args["vertices"].term)
+
+
+@contract("adjmatrix.load_adj_matrix", "matrix:seq:rows, vertices:seq:Vertex, linktype:cls<=TwoEndedLink=DirectedEdge", props=("C11",),
+          shards=8, oracle_op=True)
 def _(c):
-    """NOT VERIFIED (nested lists of arbitrary truthy cells and integer indexing of the side array are outside the symbolic
-    subset as it stands): nobody calls this function, the contract only registers it so that the bounded stand-in of C11
-    (explorer operation `adj_matrix`: random square / malformed matrices over the vertex pool, compared with the statement of
-    C11 through the public API, including `ValueError` before anything is touched) runs on every check."""
-    o = c.outcome(exc="*", label="unspecified")
-    o.result(VOpaque("universe"))
-    for f_ in ("_links", "_vertices", "_universes", "_uid", "_laws", "_applies_to", "memo_has", "memo_val", "stats_has", "dyn_has", "dyn_val",
-               "init_count", "init_args", "_mixed_links", "_cycles", "_multipath", "_multiverse", "_edge_whitelist"):
-        o.loose(f_, lambda new, old, *_: [])
+    S, ct, Tcls = c.S, c.ct, c.linktype
+    A = _mat_env(c, c.args)
+    assoc_invs(c)
+    uni_invs(c)
+    c.assume_inv(I1_sym(S, ct))
+    c.assume_inv(TY_laws(S, ct))
+    c.requires(Not(T.sub(Tcls, ct.c("Vertex"))), "link-type-is-not-a-vertex-type")
+    c.assume_inv(Schema("side-array-holds-vertices", (Ref,), lambda x: Implies(Mem(A.VS, x), And(x != NONE, ct.is_a(x, "Vertex")))))
+    d1, d3 = A.ragged_defs()
+    c.assume_inv(d1)
+    c.requires(d3, "ragged-def-witness")
+    bad = Or(Len(A.VS) != A.n, A.ragged)
+    # malformed input: ValueError, and nothing at all has changed (no universe was created, no vertex touched)
+    c.raises("ValueError", when=bad, label="not-square-or-wrong-side-array")
+    o = c.normal(when=Not(bad), label="built")
+    u = o.fresh("Universe", "uni")
+    Lw = o.fresh("UniverseLaws", "laws")
+    C = c.ghost("C", RSeq)
+    base = o.post
+    base.write("_links", u, EMPTY())
+    base.write("_universes", u, EMPTY())
+    base.write("_vertices", u, EMPTY())
+    base.write("_universes", Lw, EMPTY())
+    base.write("_laws", u, Lw)
+    base.write("_applies_to", Lw, u)
+    o.o.post = adj_post_state(A, base, ct, u, C, A.VS)
+    o.result(VRef(u, "Universe"))
+    # exactly one link per truthy cell, row vertex -> column vertex, in row-major order
+    o.fact(A.MS(C) == A.sources(A.RW))
+    o.fact(A.MD(C) == A.targets(A.RW))
+    for sch in created_facts(A, S, ct, Tcls, C, A.VS, u, Lw):
+        o.fact_schema(sch)
+    _adj_frame_loose(o, S, u, Lw, C)
+
+
+def _adj_frame_loose(o, S, u, Lw, C):
+    old_obj = lambda x: And(x != u, x != Lw, Not(Mem(C, x)))
+    o.loose("_uid", lambda new, old, *_: [Schema("uids-of-old-objects-unchanged", (Ref,), lambda x: Implies(old_obj(x), new(x) == old(x)), trigger=("_uid",))])
+    for f_ in ("_mixed_links", "_cycles", "_multipath", "_multiverse", "_edge_whitelist"):
+        o.loose(f_, lambda new, old, *_, f_=f_: [Schema("only-new-laws-written", (Ref,), lambda x: Implies(x != Lw, new(x) == old(x)), trigger=(f_,))])
+    o.loose("memo_has", lambda new, old, *_: [Schema("memo-only-shrinks", MEMO_KEY, lambda v, d, uu, f: Implies(new(v, d, uu, f), old(v, d, uu, f)), trigger=("memo_has",))])
+    stats_monotone(o)
+    o.loose("dyn_has", lambda new, old, *_: [Schema("attributes-of-old-objects-unchanged", (Ref, T.Str), lambda x, n: Implies(
+        old_obj(x), new(x, n) == old(x, n)), trigger=("dyn_has",))])
+    o.loose("dyn_val", lambda new, old, *_: [Schema("attribute-values-of-old-objects-unchanged", (Ref, T.Str), lambda x, n: Implies(
+        old_obj(x), new(x, n) == old(x, n)), trigger=("dyn_val",))])
+    o.loose("init_count", lambda new, old, *_: [])
+    o.loose("init_args", lambda new, old, *_: [])
+
+
+def _adj_loop_loose(S0, u, Lw, C):
+    old_obj = lambda x: And(x != u, x != Lw, Not(Mem(C, x)))
+    return [
+        Loose("_uid", lambda new, old, *_: [Schema("uids-of-old-objects-unchanged", (Ref,), lambda x: Implies(old_obj(x), new(x) == S0.read("_uid", x)), trigger=("_uid",))]),
+        Loose("memo_has", lambda new, old, *_: [Schema("memo-only-shrinks", MEMO_KEY, lambda v, d, uu, f: Implies(new(v, d, uu, f), S0.memo_has(v, d, uu, f)), trigger=("memo_has",))]),
+        Loose("stats_has", lambda new, old, *_: [Schema("stats-monotone", (Int,), lambda n: Implies(S0.read("stats_has", n), new(n)), trigger=("stats_has",))]),
+        Loose("dyn_has", lambda new, old, *_: [Schema("attributes-of-old-objects-unchanged", (Ref, T.Str), lambda x, n: Implies(old_obj(x), new(x, n) == S0.read("dyn_has", x, n)), trigger=("dyn_has",))]),
+        Loose("dyn_val", lambda new, old, *_: [Schema("attribute-values-of-old-objects-unchanged", (Ref, T.Str), lambda x, n: Implies(old_obj(x), new(x, n) == S0.read("dyn_val", x, n)), trigger=("dyn_val",))]),
+        Loose("init_count", lambda new, old, *_: []), Loose("init_args", lambda new, old, *_: []),
+    ]
+
+
+@REG.loop("adjmatrix.load_adj_matrix", 0)
+def _(L):
+    # validation: every row seen so far has n cells; nothing is touched
+    A = _mat_env(L, L.args)
+    p = L.prefix
+    return LoopInv(schemas=[Schema("rows-so-far-are-square", (Ref,), lambda r: Implies(Mem(p, r), Len(A.cells(r)) == A.n))])
+
+
+@REG.loop("adjmatrix.load_adj_matrix", 1)
+def _(L):
+    # registration: the vertices seen so far are members, in first-mention order; no link yet
+    ct = L.engine.ct
+    A = _mat_env(L, L.args)
+    u = L.env["uni"].term
+    E = L.st
+    L.engine._adj_base = E
+    st = adj_post_state(A, E, ct, u, EMPTY(), L.prefix)
+    g, sdefs = A.defs_created(EMPTY())
+    return LoopInv(state=st, loose=_adj_loop_loose(L.pre, u, E.laws(u), EMPTY()), ground_defs=g, defs=sdefs)
+
+
+def mat_loop_inv(L, row=None, q=None):
+    ct = L.engine.ct
+    Tcls = L.args["linktype"].term
+    A = _mat_env(L, L.args)
+    u = L.env["uni"].term
+    S0 = L.pre
+    E = L.engine._adj_base
+    Lw = E.laws(u)
+    if row is None:
+        p, i = L.prefix, None
+    else:
+        p, i = L.env["$P"].term, Len(L.env["$P"].term)
+    if L.phase == "entry":
+        C = EMPTY() if row is None else L.env["$C"].term
+    elif L.phase in ("assume", "exit"):
+        C = T.fresh("created", RSeq)
+    else:
+        C = L.env["$C"].term
+        mark = L.engine._loop_alloc_mark.get(id(L.ls), 0)
+        news = [r for (r, _c, kind) in L.path.allocs[mark:] if kind == "obj"]
+        for r in news:
+            C = snoc(C, r)
+    st = adj_post_state(A, E, ct, u, C, A.VS)
+    schemas = created_facts(A, S0, ct, Tcls, C, A.VS, u, Lw)
+    gdefs = A.defs_input(p, i, q)
+    g2, sdefs = A.defs_created(C)
+    gdefs = gdefs + g2
+    if L.phase == "check" and row is not None:
+        cur = L.cur if L.cur is not None else L.path.st
+        for r in news:
+            gdefs = gdefs + [A.gsrc(r) == cur.v1(r), A.gdst(r) == cur.v2(r)]
+    define = {"$C": VSeq(C)}
+    if row is None:
+        define["$P"] = VSeq(p)
+    facts = [A.MS(C) == A.sources(p, i, q), A.MD(C) == A.targets(p, i, q)]
+    return LoopInv(state=st, loose=_adj_loop_loose(S0, u, Lw, C), schemas=schemas, facts=facts, ground_defs=gdefs, defs=sdefs,
+                   define=define, supersedes=(row is not None))
+
+
+@REG.loop("adjmatrix.load_adj_matrix", 2)
+def _(L):
+    return mat_loop_inv(L)
+
+
+@REG.loop("adjmatrix.load_adj_matrix", 3)
+def _(L):
+    return mat_loop_inv(L, True, L.prefix)
 
 
 @contract("randgraph.randgraph", "count:int=15, edge:cls<=TwoEndedLink=DirectedEdge, connectivity:any=None, ensurelink:bool=True", props=("C20",),
